@@ -516,8 +516,17 @@ def c03_extra(m):
     return dict(rewrites_fired=group_counters(m.counters, "rewrites."))
 
 
+def calibration():
+    """Result of bin/calibrate (run by setup): esref against the repository's own behavioural tests."""
+    try:
+        r = json.load(open(os.path.join(BUILD, "calib", "result.json")))
+        return dict(source="/repo/tests/{tests,pcre_tests,unicodesets,syntax_error_tests}.rs compiled against a facade backed by esref", test_functions_passed=r.get("passed"), skipped_no_reference_data=r.get("skipped_unsupported"), failed=r.get("failed"), excluded=r.get("excluded"))
+    except Exception:
+        return dict(status="not available in this build directory (run bin/calibrate)")
+
+
 def c01_extra(m):
-    return dict(esref_events=group_counters(m.counters, "esref."), pattern_features=group_counters(m.counters, "feat."))
+    return dict(esref_calibration=calibration(), esref_events=group_counters(m.counters, "esref."), pattern_features=group_counters(m.counters, "feat."))
 
 
 def c13_extra(m):
@@ -786,7 +795,7 @@ CHECKS = {
         " Each case runs both executors on both the optimized and the unoptimized program with the hook step counter; non-trivial iff the pattern has a quantifier and the reference model's empty-iteration rule fired or it took more than 10 steps.",
         ["bounded progress, not termination: steps(engine) <= 10^4 + 10^3 x steps(esref), both logical step counts (hook ticks / reference model steps)", "cases whose reference cost exceeds 20000 steps are inconclusive and excluded", "backtrack store bound: high-water <= (3 + groups) x (steps + 1)"],
         required=["cases_where_the_empty_iteration_rule_fired", "hook.site.pike_step", "hook.pop.SetLoopData", "hook.pop.EnterNonGreedyLoop", "hook.bt.bwd.EnterLoop"],
-        extra=lambda m: dict(nested_quantifier_patterns=m.c("nested_quantifier_patterns"), cases_where_the_empty_iteration_rule_fired=m.c("cases_where_the_empty_iteration_rule_fired"), exhaustive=True),
+        extra=lambda m: dict(esref_calibration=calibration(), nested_quantifier_patterns=m.c("nested_quantifier_patterns"), cases_where_the_empty_iteration_rule_fired=m.c("cases_where_the_empty_iteration_rule_fired"), exhaustive=True),
         crash_property="C05",
     ),
     "C07": simple_check(
@@ -806,7 +815,7 @@ CHECKS = {
         " A case is (pattern, flags); distinct by hash; non-trivial iff the pattern contains a syntax character. Counters cell.<mode>.<agreement cell> give the four agreement cells per mode.",
         ["the oracle is esref's parser: my reading of ECMA-262 22.2.1 + Annex B.1.2 + early errors (ES2025 with modifiers and duplicate named groups)", "patterns near regress's documented resource limits (nesting 256, 65535 groups/loops) are permitted additional rejections and are skipped", "a pattern is a sequence of code points in every mode (escaped surrogate pairs denote one code point without u as well)"],
         required=["cell.legacy.both_accept", "cell.legacy.both_reject", "cell.u.both_accept", "cell.u.both_reject", "cell.v.both_accept", "cell.v.both_reject", "source.exhaustive", "source.escape_tables", "source.targeted", "source.structured"],
-        extra=lambda m: dict(agreement_cells=group_counters(m.counters, "cell."), sources=group_counters(m.counters, "source."), exhaustive=True),
+        extra=lambda m: dict(esref_calibration=calibration(), agreement_cells=group_counters(m.counters, "cell."), sources=group_counters(m.counters, "source."), exhaustive=True),
         crash_property="C07",
     ),
     "C09": simple_check(
@@ -845,7 +854,7 @@ CHECKS = {
         "enumerated class expressions /^E$/: legacy and u brackets = every sequence of up to 2 (quick) / 3 (thorough) items from 21/22 items (chars, ranges, class escapes, property escapes, fold-special chars, punctuators) x negated or not x {none,i} / {u,iu}; v classes = 23 leaf operands and ~330 nested operands (complement, union, &&, -- of 10 small operands) combined as single operand, union, && and -- of two (quick: a seed-selected sixth of the longer ones) and of three (thorough) x negated or not x {v,iv}; plus spelling-equivalence patterns."
         " Each expression is asked about 48 characters and short strings (mentioned chars, case partners, neighbours, one char per UTF-8 length, strings over the \\q alphabet). non-trivial iff the reference model needed more than 8 steps or matched.",
         ["the oracle is esref's ClassSet evaluator (sets of strings, MaybeSimpleCaseFolding, CharacterComplement per mode), independent of regress's codepointset.rs", "\\p{Lu}/\\p{Ll} membership from regex-syntax 16.0 tables (universe characters are all older than Unicode 16)"],
-        extra=lambda m: dict(class_expressions=m.c("class_expressions"), esref_events=group_counters(m.counters, "esref."), pattern_features=group_counters(m.counters, "feat.")),
+        extra=lambda m: dict(esref_calibration=calibration(), class_expressions=m.c("class_expressions"), esref_events=group_counters(m.counters, "esref."), pattern_features=group_counters(m.counters, "feat.")),
         required=["esref.class_string_matched", "esref.class_empty_string_matched"],
     ),
     "C14": simple_check(
